@@ -1,1 +1,264 @@
-import BigtreeModel.Basic
+import BigtreeModel.Render
+import BigtreeModel.RenderStyles
+import BigtreeProofs.Lemmas.RenderV
+import BigtreeProofs.Lemmas.RenderRT3
+import BigtreeProofs.Lemmas.RenderMermaid
+import BigtreeProofs.Lemmas.RenderH
+import BigtreeProofs.Lemmas.RenderDot2
+/-!
+# C18 — text and graph renderings encode the tree faithfully
+
+Model: `BigtreeModel/Render.lean` (tied to /repo by the correspondence check `harness/props/C18.py`).
+Only the property theorems and their non-vacuity examples live here; lemmas are in
+`BigtreeProofs/Lemmas/Render*.lean`.
+-/
+open Render
+
+namespace C18
+
+/-- a small tree used by the non-vacuity examples: a(b(d, e(g)), c) -/
+private def exT : Tree :=
+  .node 0 ['a'] [] [.node 1 ['b'] [] [.node 2 ['d'] [] [], .node 3 ['e'] [] [.node 4 ['g'] [] []]], .node 5 ['c'] [] []]
+/-- the generated "ansi" horizontal style -/
+private def exH : HStyle := ⟨'/', '+', '+', '+', '\\', '|', '-'⟩
+/-- the generated "ansi" style -/
+private def exSt : Style := ⟨"|   ".toList, "|-- ".toList, "`-- ".toList⟩
+
+/-! ## vertical rendering (`yield_tree` / `print_tree`) -/
+
+/-- The loop of `yield_tree` with its `unclosed_depth` book-keeping computes exactly the structural
+specification `specRoot` of the (max_depth-pruned) tree: one line per node in pre-order; a non-root
+line is `stems ++ connector ++ name` where the connector is `branch` iff the node has a right sibling
+(else `stem_final`) and column `j` of the indentation is a stem iff the ancestor at depth `j+1` has a
+right sibling (else a gap). Holds for every style (no side condition). -/
+theorem vertical_lines (st : Style) (md : Nat) (t : Tree) :
+    yieldTree st md t = specRoot st (prune md t) :=
+  yieldTree_eq_spec st md t
+
+example : (yieldTree exSt 0 exT).map Line.text =
+    ["a", "|-- b", "|   |-- d", "|   `-- e", "|       `-- g", "`-- c"].map String.toList := by decide
+
+/-- one line per node, in pre-order -/
+theorem vertical_preorder (st : Style) (md : Nat) (t : Tree) :
+    (yieldTree st md t).map Line.name = namesT (prune md t) := by
+  rw [vertical_lines, specRoot_names]
+
+example : (yieldTree exSt 3 exT).map Line.name = ["a", "b", "d", "e", "c"].map String.toList := by decide
+
+/-- indentation = depth × glyph length, for every style whose three glyphs have equal length -/
+theorem vertical_indent (st : Style) (md : Nat) (t : Tree) (h : st.lengthsOk = true) :
+    (yieldTree st md t).map (fun l => (l.pre ++ l.fill).length) =
+      (depthsT 0 (prune md t)).map (· * st.stem.length) := by
+  rw [vertical_lines, specRoot_indent st h]
+
+example : exSt.lengthsOk = true ∧ depthsT 0 (prune 0 exT) = [0, 1, 2, 2, 3, 1] := by decide
+
+/-- `str_to_tree ∘ print_tree = id`: reading the printed lines back with the connector glyphs as
+prefix list rebuilds the (pruned) tree — fresh nodes, hence ids/attributes erased — for every style
+meeting `styleOk` and names meeting `nameOk` (no leading blank / glyph character, no connector
+inside), sibling names distinct (what `Node` enforces). -/
+theorem print_roundtrip (st : Style) (md : Nat) (t : Tree) (hst : styleOk st = true)
+    (hnames : ∀ n ∈ namesT t, nameOk st n = true) (hsib : sibDistinct t = true) :
+    strToTreeLines [st.branch, st.stemFinal] ((yieldTree st md t).map Line.text) =
+      some (erase (prune md t)) :=
+  strToTree_yieldTree hst md t hnames hsib
+
+example : ("ansi", exSt) ∈ builtinStyles ∧ styleOk exSt = true ∧ (∀ n ∈ namesT exT, nameOk exSt n = true) ∧
+    sibDistinct exT = true ∧ erase (prune 0 exT) ≠ .node 0 ['a'] [] [] := by decide
+
+/-- the side conditions hold for every entry of the generated `PRINT_STYLES` table -/
+theorem builtin_styles_ok : ∀ e ∈ builtinStyles, styleOk e.2 = true := by decide
+
+example : builtinStyles.length = 6 := by decide
+
+/-! ## mermaid -/
+
+/-- `mermaid_name` (an index path rendered as `0-i-j-…`) determines the index path -/
+theorem mermaid_ids_injective {a b : List Nat} (h : mermaidRef a = mermaidRef b) : a = b :=
+  mermaidRef_injective h
+
+example : mermaidRef [2, 0] = "0-0-2".toList ∧ mermaidRef [0, 2] = "0-2-0".toList := by decide
+
+/-- distinct nodes of one tree get distinct refs -/
+theorem mermaid_ids_nodup (t : Tree) : (mermaidIds t).Nodup := mermaidIds_nodup t
+
+example : mermaidIds exT = ["0", "0-0", "0-0-0", "0-0-1", "0-0-1-0", "0-1"].map String.toList := by decide
+
+/-- one flow line per parent–child link, in pre-order of the child, joining exactly the refs of the
+two nodes, labelled with the child's name -/
+theorem mermaid_edges_exact (md : Nat) (t : Tree) :
+    (mermaidFlows md t).map (fun f => (f.fromRef, f.toRef)) =
+      (linksT 0 (prune md t)).map
+        (fun pc => ((mermaidIds (prune md t)).getD pc.1 [], (mermaidIds (prune md t)).getD pc.2 [])) ∧
+    (mermaidFlows md t).map (·.toLabel) = (namesT (prune md t)).tail := by
+  unfold mermaidFlows
+  match h : prune md t with
+  | .node i n a cs =>
+    constructor
+    · have e := flowsL_ends [] true n 0 cs
+      have g := edgesOf_eq_links (refTreeT [] (.node i n a cs))
+      rw [refTreeT_names, refTreeT_links] at g
+      simp only [refTreeT, edgesOfT] at g
+      have : (fun f : Flow => (f.fromRef, f.toRef)) = Flow.ends := rfl
+      rw [this, e]
+      exact g
+    · rw [flowsL_labels]; simp [namesT]
+
+example : (mermaidFlows 0 exT).map Flow.text =
+    ["0(\"a\") --> 0-0(\"b\")", "0-0 --> 0-0-0(\"d\")", "0-0 --> 0-0-1(\"e\")", "0-0-1 --> 0-0-1-0(\"g\")",
+     "0(\"a\") --> 0-1(\"c\")"].map String.toList ∧
+    linksT 0 exT = [(0, 1), (1, 2), (1, 3), (3, 4), (0, 5)] := by decide
+
+/-- every node of a rendering with at least two nodes is shown as a labelled vertex: each non-root
+node exactly once as the target of a flow line carrying its ref and name, the root (ref `0`) with
+its name on every line that leaves it, and there is such a line -/
+theorem mermaid_vertices (md : Nat) (t : Tree) (h : (prune md t).children ≠ []) :
+    (mermaidFlows md t).map (fun f => (f.toRef, f.toLabel)) =
+      ((mermaidIds (prune md t)).zip (namesT (prune md t))).tail ∧
+    (∀ f ∈ mermaidFlows md t,
+      f.fromLabel = if f.fromRef = ['0'] then some (prune md t).name else none) ∧
+    (∃ f ∈ mermaidFlows md t, f.fromRef = ['0']) := by
+  unfold mermaidFlows mermaidIds
+  match hp : prune md t, h with
+  | .node i n a cs, h =>
+    refine ⟨?_, ?_, ?_⟩
+    · have : (fun f : Flow => (f.toRef, f.toLabel)) = Flow.target := rfl
+      rw [this, flowsL_targets]
+      simp [mermaidIdsT, namesT]
+    · exact flowsL_from n [] true n 0 cs ⟨fun _ => ⟨rfl, rfl⟩, fun h => by simp at h⟩
+    · match cs, h with
+      | c :: cs, _ =>
+        match c with
+        | .node j m b ds =>
+          exact ⟨⟨mermaidRef [], some n, mermaidRef [0], m⟩, by simp [flowsL, flowsT], by simp [mermaidRef]⟩
+
+example : (prune 2 exT).children ≠ [] := by decide
+
+/-- K3: a rendering with a single node has no flow line, hence shows no vertex at all -/
+theorem mermaid_single_no_vertex : mermaidFlows 0 (.node 0 ['a'] [] []) = [] := by decide
+
+/-! ## dot -/
+
+/-- one vertex per node, in pre-order, labelled with the node's name (unconditional) -/
+theorem dot_vertices_labels (sep : Str) (t : Tree) : (dotVertices sep t).map (·.2) = namesT t :=
+  Render.dot_vertices_labels sep t
+
+example : dotVertices ['/'] exT = [("a0", "a"), ("b0", "b"), ("d0", "d"), ("e0", "e"), ("g0", "g"), ("c0", "c")].map
+    (fun p => (p.1.toList, p.2.toList)) := by decide
+
+/-- one edge per parent–child link, joining exactly the ids of the two nodes (unconditional; with
+`dot_ids_injective_partial` the edge set identifies the links) -/
+theorem dot_edges_exact (sep : Str) (t : Tree) :
+    dotEdges sep t =
+      (linksT 0 t).map fun pc => ((dotIds sep t).getD pc.1 [], (dotIds sep t).getD pc.2 []) :=
+  Render.dot_edges_exact sep t
+
+example : dotEdges ['/'] exT = [("a0", "b0"), ("b0", "d0"), ("b0", "e0"), ("e0", "g0"), ("a0", "c0")].map
+    (fun p => (p.1.toList, p.2.toList)) := by decide
+
+/-- vertex ids (`label ++ str(k)`) are pairwise distinct when sibling names are distinct, the
+(one-character) separator occurs in no name and no name ends in a decimal digit -/
+theorem dot_ids_injective_partial (c : Char) (t : Tree) (hsib : sibDistinct t = true)
+    (hsep : ∀ n ∈ namesT t, c ∉ n) (hdig : ∀ n ∈ namesT t, noDigitEnd n = true) :
+    (dotIds [c] t).Nodup :=
+  dot_ids_nodup c t hsib hsep hdig
+
+/-- repeated names across branches: r(p(x), q(x)) gets ids x0, x1 -/
+example : let t : Tree := .node 0 ['r'] [] [.node 0 ['p'] [] [.node 0 ['x'] [] []], .node 0 ['q'] [] [.node 0 ['x'] [] []]]
+    sibDistinct t = true ∧ (∀ n ∈ namesT t, '/' ∉ n) ∧ (∀ n ∈ namesT t, noDigitEnd n = true) ∧
+    dotIds ['/'] t = ["r0", "p0", "x0", "q0", "x1"].map String.toList := by decide
+
+/-- the full statement (without the digit hypothesis); false — K2 -/
+def DotIdsInjective : Prop :=
+  ∀ t : Tree, sibDistinct t = true → (∀ n ∈ namesT t, '/' ∉ n) → (dotIds ['/'] t).Nodup
+
+/-- K2: 11 nodes named `x` in different branches plus one `x1` ⇒ two vertices with id `x10` -/
+theorem dot_ids_not_injective : ¬ DotIdsInjective := by
+  intro h
+  have hw := k2Witness_ok
+  refine dot_ids_collide (h k2Witness hw.1 ?_)
+  intro n hn hc
+  have := List.all_eq_true.mp hw.2 n hn
+  simp at this
+  exact this hc
+
+example : (dotIds ['/'] k2Witness).getD 22 [] = "x10".toList ∧ (dotIds ['/'] k2Witness).getD 23 [] = "x10".toList ∧
+    (dotVertices ['/'] k2Witness).getD 22 ([], []) ≠ (dotVertices ['/'] k2Witness).getD 23 ([], []) := by decide
+
+/-! ## horizontal rendering (`hyield_tree` / `hprint_tree`)
+
+`hplace S inter pad 1 0 t'` lists every node of the rendered tree `t'` (pre-order; the empty slots of a
+BinaryNode count as blank leaves) with its depth and the row on which it is placed. -/
+
+/-- column bands: in the rows `hyield_tree` returns, a node of depth `e` is shown at column
+`hcol inter pad 1 (e - 1)` of its row — a function of the depth alone (with or without intermediate
+node names) — as `─ name ─` / `───` (inner node) or `─ name` up to the end of the row (leaf) -/
+theorem h_bands (S : HStyle) (inter : Bool) (md : Nat) (t : HTree) :
+    let t' := hprune md t
+    let pad := padOf inter t'
+    ∀ p ∈ hplace S inter pad 1 0 t',
+      1 ≤ p.depth ∧
+      ∃ row, (hyieldTree S inter md t)[p.row]? = some row ∧
+        hlabel S inter pad p.depth p.name p.isLeaf <+: row.drop (hcol inter pad 1 (p.depth - 1)) ∧
+        (p.isLeaf = true → row.drop (hcol inter pad 1 (p.depth - 1)) = hlabel S inter pad p.depth p.name true) :=
+  h_bands_hyield S inter md t
+
+example : ("ansi", some exH) ∈ builtinHStyles ∧
+    hyieldTree exH true 0 (ofTree exT) =
+      ["           /- d", "     /- b -+", "- a -+     \\- e --- g", "     \\- c"].map String.toList ∧
+    hplace exH true (padOf true (ofTree exT)) 1 0 (ofTree exT) =
+      [⟨1, 2, false, ['a']⟩, ⟨2, 1, false, ['b']⟩, ⟨3, 0, true, ['d']⟩, ⟨3, 2, false, ['e']⟩, ⟨4, 2, true, ['g']⟩,
+       ⟨2, 3, true, ['c']⟩] ∧
+    (List.range 4).map (hcol true (padOf true (ofTree exT)) 1) = [0, 6, 12, 18] := by decide
+
+/-- leaves appear top to bottom in pre-order: their rows are strictly increasing -/
+theorem h_leaf_order (S : HStyle) (inter : Bool) (md : Nat) (t : HTree) :
+    (((hplace S inter (padOf inter (hprune md t)) 1 0 (hprune md t)).filter (·.isLeaf)).map (·.row)).Pairwise
+      (· < ·) :=
+  h_leaf_order_hyield S inter md t
+
+example : ((hplace exH true (padOf true (ofTree exT)) 1 0 (ofTree exT)).filter (·.isLeaf)).map (·.row) = [0, 2, 3] := by
+  decide
+
+/-- every placement row is a row of the output -/
+theorem h_rows_in_range (S : HStyle) (inter : Bool) (md : Nat) (t : HTree) :
+    ∀ p ∈ hplace S inter (padOf inter (hprune md t)) 1 0 (hprune md t),
+      p.row < (hyieldTree S inter md t).length :=
+  hplace_row_lt_hyield S inter md t
+
+/-- Tier 2: the row of an inner node lies between the rows of its first and its last child
+(strictly inside when it has at least two child slots); `childRows` are the rows of the children
+themselves (`hplace_head_row` ties them to `hplace`) -/
+theorem h_parent_in_span (S : HStyle) (inter : Bool) (pad : Nat → Nat) (d : Nat) (n : Str) (cs : List HTree)
+    (h : cs.any HTree.isReal = true) (f l : Nat)
+    (hf : (childRows S inter pad (d + 1) 0 (gapInserted (hblockL S inter pad (d + 1) cs)) cs).head? = some f)
+    (hl : (childRows S inter pad (d + 1) 0 (gapInserted (hblockL S inter pad (d + 1) cs)) cs).getLast? = some l) :
+    f ≤ (hblock S inter pad d (.node n cs)).2 ∧ (hblock S inter pad d (.node n cs)).2 ≤ l ∧
+    (2 ≤ cs.length → f < (hblock S inter pad d (.node n cs)).2 ∧ (hblock S inter pad d (.node n cs)).2 < l) :=
+  Render.h_parent_in_span S inter pad d n cs h f l hf hl
+
+example : let cs := [ofTree (.node 0 ['d'] [] []), ofTree (.node 0 ['e'] [] [])]
+    cs.any HTree.isReal = true ∧
+    childRows exH true (fun _ => 1) 2 0 (gapInserted (hblockL exH true (fun _ => 1) 2 cs)) cs = [0, 2] ∧
+    (hblock exH true (fun _ => 1) 1 (.node ['b'] cs)).2 = 1 := by decide
+
+/-- the `assert len(result) == 2` of `_hprint_branch` can never fail -/
+theorem h_gap_assert (S : HStyle) (inter : Bool) (pad : Nat → Nat) (d : Nat) (a b : HTree) :
+    gapInserted (hblockL S inter pad d [a, b]) = true →
+      ((hblockL S inter pad d [a, b]).flatMap (·.1)).length = 2 :=
+  Render.h_gap_assert S inter pad d a b
+
+example : gapInserted (hblockL exH true (fun _ => 1) 2 [.node ['d'] [], .node ['e'] []]) = true := by decide
+
+/-- every entry of the generated `HPRINT_STYLES` table is a well-formed style that meets the
+decodability side conditions `hstyleOk` — except the pinned "ascii" entry (K4) -/
+theorem builtin_hstyles_ok :
+    ∀ e ∈ builtinHStyles, ∃ S, e.2 = some S ∧ (hstyleOk S = true ∨ S = asciiPinned) := by decide
+
+/-- K4: the horizontal form is not decodable in the pinned "ascii" style — two different trees,
+identical rows; and that style indeed fails `hstyleOk` -/
+theorem h_ascii_not_injective :
+    k4Tree1 ≠ k4Tree2 ∧ hyieldTree asciiPinned true 0 k4Tree1 = hyieldTree asciiPinned true 0 k4Tree2 ∧
+    hstyleOk asciiPinned = false := by decide
+
+end C18
